@@ -14,11 +14,15 @@ def run(ctx):
     # the statement is invariant under the choice of time unit: the same behaviours are replayed with every spec quantity
     # (timestamp, delay, lateness) multiplied by a unit in milliseconds - all units just above one second, and some large ones
     units = list(range(1001, 1041 if q else 3001)) + [1118, 1235, 60000, 86400000, 10 ** 12, (1 << 53) + 1]
-    V = [{"unit": u} for u in units]
+    V = [{"unit": u} for u in units] + [{"unit": 1, "seq": True, "_allhist": 4 if q else 5}]
     if q:
         c.graph_leg(ctx, "Watermark.tla", "watermark", "Gen_Watermark.cfg", {}, 2000, 13, 4, "Sim_Watermark.cfg", 1000, 14, variants=V, variant_walks=0)
     else:
         c.graph_leg(ctx, "Watermark.tla", "watermark", "Gen_Watermark.cfg", {}, 100000, 13, 5, "Sim_Watermark.cfg", 30000, 14, variants=V, variant_walks=0)
+    # different (source, sequence) pairs whose concatenations coincide: every sequence to the all-histories depth again
+    # (the variant {"seq": true} above, replayed like the base configuration)
+    # what the stream remembers is longer than the abstract state: EVERY sequence of 12 offers that climbs by one or steps two back
+    c.graph_leg(ctx, "Watermark.tla", "watermark", "Gen_Watermark_climb.cfg", {}, 0, 13, 13, histbudget=3000000)
     ctx.cov["exhaustive"] = True
     ctx.cov["rule"] = ("design level, unbounded: Apalache proves IndInv (watermark equation, monotonicity, late-iff-below, exactly-once, "
                        "statistics identities, strategy obeyed) inductive for WatermarkInd.tla over all naturals; code level: the complete reachable graph of Watermark.tla over (delay, strategy, lateness) x (watermark, max timestamp) "
@@ -27,7 +31,8 @@ def run(ctx):
                        "WatermarkedStream; after every add_event: current watermark, whether watermark_history grew by exactly that value, "
                        "where the event went (events / side output / nowhere), the late-statistics deltas and the cumulative totals; the transition "
                        "cover is repeated with all time quantities scaled by each unit in 1001..1040 ms (thorough: ..3000), 1118, 1235, a minute, "
-                       "a day, 1e12 and 2^53+1; allowed lateness includes the unbounded grace period (Duration::MAX / u64::MAX ms)")
+                       "a day, 1e12 and 2^53+1; allowed lateness includes the unbounded grace period (Duration::MAX / u64::MAX ms); again with events whose (source, sequence number) pairs differ "
+                       "but concatenate alike; Gen_Watermark_climb: every sequence of 12 offers, each one above the largest timestamp or two below it (up to 12 watermark advances)")
     ctx.assumptions += ["BoundedOutOfOrder with delays {0,1,2,4} ms and MonotonicAscending (as delay 0); Periodic/Custom strategies "
                         "depend on wall-clock time and are outside the statement",
                         "timestamps 0..6 time units"]
